@@ -715,6 +715,26 @@ func (ex *Exec) Stop(msg string) { panic(pathEnd{kind: endStop, msg: msg}) }
 
 func (ex *Exec) PanicText(p *targetPanic) string { return ex.panicText(p.v) }
 func (ex *Exec) Model() Model                    { return ex.model }
+
+// ModelFor asks the solver for a model of the path condition together with c (no fork, no assumption).
+func (ex *Exec) ModelFor(c *Term) (Model, bool) {
+	if ex.inReplay() {
+		return nil, false
+	}
+	ex.flushPC()
+	v, m := ex.solver.Check([]*Term{c}, ex.tt.Vars, true)
+	if v != Sat {
+		return nil, false
+	}
+	cp := Model{}
+	for k, val := range m {
+		cp[k] = val
+	}
+	return cp, true
+}
+
+// InputVars lists the symbolic inputs declared so far.
+func (ex *Exec) InputVars() []*Term { return ex.tt.Vars }
 func (ex *Exec) PCLen() int                      { return len(ex.pc) }
 
 // targetStack renders the innermost n target frames (for diagnostics).
